@@ -26,7 +26,7 @@ def ev(self, node, fr):
 
 
 def ev_cond(self, node, fr):
-    return self.ev(node, fr)
+    return T.truthy(self.ev(node, fr))
 
 
 def ev_index(self, node, fr):
@@ -402,28 +402,8 @@ def subscript(self, base, idx):
     return T.mk_sub(base, idx)
 
 
-def as_seq(t):
-    """(start, step, n) if t is affine in exactly one seq atom: A + B*seq(s,d,n)."""
-    seqs = [a for a in t.atoms() if a.kind == 'seq']
-    if len(seqs) != 1:
-        return None
-    sa = seqs[0]
-    A = Term()
-    B = Term()
-    for m, c in t.p.items():
-        exps = [e for a, e in m if a is sa or a == sa]
-        if not exps:
-            A = A + Term({m: c})
-        elif exps == [1]:
-            B = B + Term({tuple((a, e) for a, e in m if a != sa): c})
-        else:
-            return None
-    s, d, n = sa.args
-    return (A + B * s, B * d, n)
-
-
-def mk_seq(start, step, n):
-    return Term.of(Atom('seq', lift(start), lift(step), lift(n)))
+as_seq = T.as_seq
+mk_seq = T.mk_seq
 
 
 def seq_index(seq, idx):
